@@ -69,8 +69,10 @@ def encode_event(e, d="out"):
     if k == "collected":
         return {"e": k, "rows": [canon_row(r) for r in e["rows"]]}
     if k == "status":
-        return {x: e[x] for x in ("e", "pid", "sub", "njobs", "nsub", "ndone", "complete", "canceled", "cver", "cverf",
-                                  "jver", "jverf", "st", "rem", "ids", "bidx", "marker", "rows")}
+        d = {x: e[x] for x in ("e", "pid", "sub", "njobs", "nsub", "ndone", "complete", "canceled", "cver", "cverf",
+                               "jver", "jverf", "st", "rem", "ids", "bidx", "marker", "rows")}
+        d["idb"] = list(e.get("idb", []))
+        return d
     if k == "promote":
         return {x: e[x] for x in ("e", "pid", "host", "ok", "exc", "before", "after", "create")}
     if k == "summary":
